@@ -270,7 +270,8 @@ def qualname(obj: tp.Union[type, refs.ForwardRef, tp.Callable]) -> str:
         return qname.replace("<locals>.", "")
     if nm is not None:  # pragma: no cover
         return nm
-    return strobj
+    # (e.g., `X | None`, whose text names a function-local `X` with its `<locals>.` marker.)
+    return strobj.replace("<locals>.", "")
 
 
 @compat.cache
